@@ -167,18 +167,27 @@ def _is_covered(m, K):
         t.no_raise(paths)
         Wr = [[t.inputs["W"].snapshot.a[k, j] for j in range(m)] for k in range(K)]
         VI, VJ = t.inputs["vi"].snapshot.flat(), t.inputs["vj"].snapshot.flat()
-        if len(t.ctx.cvx) != 1:
-            t.prove("exactly_one_program_solved", False)
-            return
-        rec = t.ctx.cvx[0]
-        x = rec["vars"]
-        u = [x[c] + V.R(VI[c]) - V.R(VJ[c]) for c in range(m)]
-        # spec in the variable u = x + vi - vj: u in C, |u| <= eps, vj + u dominates vi (which is x in C)
-        spec = z3.And(*([S.dot(w, u) >= 0 for w in Wr] + [V.R(eps) >= 0, sum((a * a for a in u[1:]), u[0] * u[0]) <= V.R(eps) * V.R(eps)] +
-                        [S.dot(w, S.vsub(S.vadd(VJ, u), VI)) >= 0 for w in Wr]))
-        t.prove("constraints_are_exists_cone_vector_u_of_norm_le_eps_with_vj_plus_u_dominating_vi", rec["constraints"] == spec)
-        t.prove("single_variable_of_dimension_m", z3.BoolVal(len(x) == m))
-        t.prove_paths("result_is_feasibility", paths, lambda p: V.Bz(p.value) == rec["feas"] if p.kind == "return" else False)
+        # Semantic statement (robust against shortcuts that skip the solve): COVERED is the specification's verdict
+        #     exists u in C, |u| <= eps, vj + u dominates vi;
+        # a program whose constraint set is proved pointwise equal to the specification's returns COVERED (A-SOLVE); u = 0 is a
+        # witness whenever it satisfies the specification; the result must be COVERED.
+        COVERED = z3.Bool("covered_spec")
+
+        def spec_of(u):
+            return z3.And(*([S.dot(w, u) >= 0 for w in Wr] + [V.R(eps) >= 0, sum((a * a for a in u[1:]), u[0] * u[0]) <= V.R(eps) * V.R(eps)] +
+                            [S.dot(w, S.vsub(S.vadd(VJ, u), VI)) >= 0 for w in Wr]))
+        links = [z3.Implies(spec_of([z3.RealVal(0)] * m), COVERED)]
+        for i, rec in enumerate(t.ctx.cvx):
+            x = rec["vars"]
+            if len(x) != m:
+                t.prove("single_variable_of_dimension_m#%d" % i, False)
+                continue
+            u = [x[c] + V.R(VI[c]) - V.R(VJ[c]) for c in range(m)]
+            # spec in the variable u = x + vi - vj: u in C, |u| <= eps, vj + u dominates vi (which is x in C)
+            r = t.prove("constraints_are_exists_cone_vector_u_of_norm_le_eps_with_vj_plus_u_dominating_vi#%d" % i, rec["constraints"] == spec_of(u), assumptions=rec["pc"][len(t.pre):], needed=True)
+            if r is not None and r["status"] == "proved":
+                links.append(z3.Implies(z3.And(*rec["pc"][len(t.pre):]) if rec["pc"][len(t.pre):] else z3.BoolVal(True), rec["feas"] == COVERED))
+        t.prove_paths("result_is_the_coverage_verdict", paths, lambda p: z3.Implies(z3.And(*links), V.Bz(p.value) == COVERED) if p.kind == "return" else False)
         t.frame_unchanged("frame:inputs-not-written", paths, ["vi", "vj", "W"])
     return _t
 
